@@ -515,7 +515,10 @@ REOPEN_QUICK = ["ConcatenatedDrillhole.name", "ConcatenatedDrillhole.cost", "Con
 
 def scenarios(tier, seed):
     S = [SetAttribute(cases=[k]) for k in CASES]
-    S += [SetAttribute(cases=[k], reopen_first=True) for k in (REOPEN_QUICK if tier == "quick" else CASES) if not k.startswith("Workspace.")]
+    S += [SetAttribute(cases=[k], reopen_first=True) for k in (REOPEN_QUICK if tier == "quick" else CASES)
+          # int-created drillholes cannot be re-read before the assignment (np.int64 fails the setters' isinstance: C01/C19
+          # territory, not a setter losing data), so the later-session variant does not exist for them
+          if not k.startswith("Workspace.") and "(int-created)" not in k]
     if tier == "thorough":
         for a, b in ORDER_PAIRS:
             S.append(SetAttribute(cases=[a, b]))
